@@ -285,6 +285,26 @@ FIXED = [
 ]
 
 
+# values that are NOT lists at list positions: a string / bytes is never iterated (RuntimeError "should be iterable")
+NOT_ITERATED = [
+    ("str-at-list-position", "{ items { id } keys }", {"items": "ab", "keys": "k"}),
+    ("bytes-at-list-position", "{ items { id } }", {"items": b"ab"}),
+    ("str-at-nonnull-item-list", "{ nodes { id } }", {"nodes": "x"}),
+    ("int-at-list-position", "{ items { id } }", {"items": 5}),
+]
+
+
+def not_iterated(ctx, schema):
+    for label, text, root in NOT_ITERATED:
+        impl = run_impl_default(schema, text, root)
+        ctx.count()
+        if impl.get("internal") != "RuntimeError":
+            ctx.fail("default-resolver:non-list-at-list-position:%s" % label,
+                     "a value that is not a list (string, bytes, number) at a list position must end in RuntimeError "
+                     "(\"resolved value should be iterable\"), it is never iterated character by character",
+                     {"sdl": SDL, "document": text, "root_repr": repr(root), "impl": impl, "stream": "default-resolver-negative"})
+
+
 def run(ctx):
     from py_gql import build_schema
     from canon_schema import dump_schema
@@ -293,6 +313,7 @@ def run(ctx):
     dump = dump_schema(schema)
     desc = desc_from_dump(dump)
     types = {t["name"]: t for t in dump["types"]}
+    not_iterated(ctx, schema)
     use_lean = ctx.model_ok and ctx.driver.available()
     batch = []
     todo = [(lab, text, root, None) for lab, text, root in FIXED]
